@@ -13,4 +13,7 @@ t = open(root + "/seeded/AGENT_PROMPT.tmpl").read()
 for k, v in {"@WT@": wt, "@OUT@": out, "@ID@": pid, "@TITLE@": p["title"], "@STATEMENT@": p["statement"],
              "@QUANT@": p["quantifier"]["text"], "@FILES@": ", ".join(p["anchors"]["files"])}.items():
     t = t.replace(k, v)
+focus = os.environ.get("SEED_FOCUS", "")
+if focus:
+    t = t.replace("TASK: produce", "ROUND FOCUS: " + focus + "\n\nTASK: produce", 1)
 print(t)
